@@ -26,13 +26,13 @@ def _free_qd(rng: Rng, d: int):
         q = [rng.randrange(0, 2) for _ in range(d)]
         return q
     if style == 'large':
-        base = rng.pick([-70000, 65536, 1 << 20, -(1 << 17)])
+        base = rng.pick([-70000, 65536, 1 << 20, -(1 << 17), 1 << 58, -(1 << 57), 10 ** 17])
         return [base * rng.randrange(-1, 2) + rng.randrange(-1, 2) for _ in range(d)]
     return [rng.randrange(-3, 4)] * d
 
 
 def pick_family(rng: Rng, tier: str, want_ham: bool, profile: str):
-    cap = 256 if tier == 'quick' else 1024
+    cap = 256 if (tier == 'quick' and profile != 'C20') else 1024
     fams = [('zero', 3), ('xxz', 3), ('spin1', 2), ('bose', 2), ('fermi', 1.5), ('mol', 1.5), ('ising', 1.5)]
     if not want_ham:
         fams += [('free', 4), ('d1', 0.7)]
@@ -61,7 +61,7 @@ def pick_family(rng: Rng, tier: str, want_ham: bool, profile: str):
         qd = [rng.randrange(-2, 3)]
     # site count under the dense cap
     Lmax = 1
-    while d > 1 and d ** (Lmax + 1) <= cap and Lmax < 8:
+    while d > 1 and d ** (Lmax + 1) <= cap and Lmax < (10 if profile == 'C20' else 8):
         Lmax += 1
     if d == 1:
         Lmax = 6
@@ -136,6 +136,8 @@ def gen_mps_qD(rng: Rng, qd, L, Dmax, style, q0=0, qtot=None):
         elif style == 'disjoint':
             D = rng.randrange(1, Dmax + 1)
             off = (max(abs(x) for x in qd) + 1) * (L + 2)
+            if off > 2 ** 40:
+                off = 12345     # keeps int64 labels; small offsets are unreachable from huge charges plus small parts
             cur = [q0 + off + rng.randrange(0, 2) for _ in range(D)]
         else:
             cur = [0] * rng.randrange(1, Dmax + 1)
@@ -325,6 +327,8 @@ def gen_session(prop: str, tier: str, seed: int) -> dict:
     cfg = {'world': 'tn', 'profile': profile, 'tier': tier, 'family': fam, 'd': d, 'qd': qd, 'L': L, 'Dmax': Dmax,
            'enabled': enabled, 'faultfree': faultfree, 'dense_cap': 256 if tier == 'quick' else 1024}
     nops = rng.randrange(3, 13) if tier == 'quick' else rng.randrange(4, 31)
+    if profile == 'C20' and d ** L > 256:
+        nops = rng.randrange(0, 2)      # large chains: only the constructor (dense 1024 x 1024 models are expensive)
     ops = []
     complete = False
     # ---- prelude -------------------------------------------------------------------------------
@@ -434,7 +438,7 @@ def gen_op(rng: Rng, cfg, kind: str) -> dict:
         return {'op': 'share_copy', 'sel': s()}
     if kind == 'orthonormalize':
         return {'op': 'orthonormalize', 'sel': s(), 'mode': rng.pick(['left', 'right']), 'extreme': rng.chance(0.06),
-                'kind': rng.wpick([('mps', 3), ('mpo', 1)]) if profile not in ('C08', 'C09', 'C10') else 'mps'}
+                'kind': rng.wpick([('mps', 3), ('mpo', 1)]) if profile not in ('C08', 'C09', 'C10') else rng.wpick([('mps', 4), ('mpo', 1)])}
     if kind == 'compress':
         tol = rng.pick(DYADIC_TOLS)
         return {'op': 'compress', 'sel': s(), 'tol': tol, 'tolscale': rng.random(), 'mode': rng.pick(['left', 'right']),
